@@ -112,6 +112,13 @@ def gen_cases(chk):
                 g[2] = "0"
             obs = obs + " " + ":".join(g)
         cases.append((cfg, h, obs))
+    # the thread-safe customize entry after a decompression of a stream made with another (fixed) interval count: it derives its
+    # quantisation state from the configuration like every other entry
+    for ty in (0, 1):
+        fixed = "c:%x:0:%s:%s:0:0,0,0,0,3e8:0:%x:%s" % (ty, dbits(1e-2), dbits(1e-3), 0x31 + ty, one)
+        for nm in ("SZ", "SZ1.4"):
+            cases.append(("szMode=SZ_BEST_SPEED;quantization_intervals=256", [fixed, "f", "d:0"], "K:%s:%x:0,0,0,0,7d0:0:%x:%s" % (nm, ty, 0x41 + ty, dbits(100.0))))
+            cases.append(("szMode=SZ_BEST_SPEED", [fixed, "d:0"], "K:%s:%x:0,0,0,1e,28:2:%x:%s" % (nm, ty, 0x43 + ty, one)))
     # value-range protection: what the decompressor clamps to must come from the stream, not from whatever was compressed last
     for ty in (0, 1):
         for big, small in ((100.0, 1.0), (1.0, 100.0)):
@@ -166,8 +173,16 @@ def run(chk):
         oplen[len(h)] = oplen.get(len(h), 0) + 1
         da, db = kv(a), kv(b)
         if a.startswith("DIED") or b.startswith("DIED") or "dig" not in da or "dig" not in db:
-            # a crash in a valid history is C10's subject; here it only means nothing was compared
+            # a crash inside the history is C10's subject; but an observed pair that dies after a history whose operations all completed,
+            # and works in the fresh process, depends on that history
             chk.cov.setdefault("died", 0); chk.cov["died"] += 1
+            part = kv(a.split(" | ", 1)[1]) if (a.startswith("DIED") and " | " in a) else {}
+            done_ops = len(part.get("snap", "").split("|")) - 2 if "snap" in part else -1
+            if a.startswith("DIED") and not b.startswith("DIED") and "dig" in db and done_ops >= len(h):
+                nfail += 1
+                if nfail <= 8:
+                    chk.violation("the observed compression/decompression dies after the history (all %d operations of it completed) and succeeds in a fresh process, on `%s`: %s" % (len(h), hist[i][:200], a[:120]),
+                                  {"case": hist[i], "fresh": fresh[i], "after_history": a[:300], "fresh_out": b[-120:], "variant": "plain"})
             continue
         if da["dig"] != db["dig"]:
             nfail += 1
@@ -175,7 +190,7 @@ def run(chk):
                 chk.violation("reconstruction after the history differs from the fresh process (digest %s vs %s) on `%s`" % (da["dig"], db["dig"], hist[i][:200]),
                               {"case": hist[i], "fresh": fresh[i], "after_history": a[-120:], "fresh_out": b[-120:], "variant": "plain"})
             continue
-        obs_int = int(obs.split(":")[2 if obs[0] == "k" else 1], 16) >= 2
+        obs_int = int(obs.split(":")[2 if obs[0] in "kK" else 1], 16) >= 2
         skey = "smdig" if (obs_int and da.get("wrapped") == "0") else "sdig"
         if obs_int and da.get("wrapped") != "0":
             pass        # a wrapped integer stream: the unread dmin slot (see harness) changes the wrapped bytes everywhere; the reconstruction was compared
